@@ -192,6 +192,12 @@ def DSt.pushFrontDList (s : DSt) (l other : Nat) : Option DSt :=
   let s1 := s.lazyInit l
   DSt.pushFrontLoop l (s1.lenOf other).toNat (s1.back other) s1
 
+/-- `*b = *a` for two `DList` values: the sentinel `root` (its `next`/`prev`) and `len` are copied by
+value; the nodes still point at `&a.root`. -/
+def DSt.copyList (s : DSt) (a b : Nat) : DSt :=
+  { s with next := s.next.set b (s.next.get a), prev := s.prev.set b (s.prev.get a),
+           len := s.len.set b (s.len.get a) }
+
 /-! ### traversals (what the harness prints after every operation) -/
 
 /-- `for e := start; e != nil; e = step(e)`, cut after `fuel` nodes (printed as `!`). -/
